@@ -1035,6 +1035,10 @@ func (c *SliceConverter) To(obj Object) (interface{}, error) {
 		if err != nil {
 			return nil, errz.TypeErrorf("type error: failed to convert slice element: %v", err)
 		}
+		if item == nil {
+			slice = reflect.Append(slice, reflect.Zero(c.valueType))
+			continue
+		}
 		slice = reflect.Append(slice, reflect.ValueOf(item))
 	}
 	return slice.Interface(), nil
@@ -1088,6 +1092,9 @@ func (c *ArrayConverter) To(obj Object) (interface{}, error) {
 		item, err := c.valueConverter.To(v)
 		if err != nil {
 			return nil, errz.TypeErrorf("type error: failed to convert element: %v", err)
+		}
+		if item == nil {
+			continue // the element keeps its zero value
 		}
 		arrayElem.Index(i).Set(reflect.ValueOf(item))
 	}
